@@ -283,7 +283,9 @@ def _run_one(sim, params):
             else:
                 if res != ("put", True):
                     raise Violation("put-failed", "snep", "put of %d octets ended %r; %r" % (len(r["octets"]), res, desc))
-                if n != 1:
+                # two requests of the minimum size (3 octets, empty payload) carry identical octets
+                want = sum(1 for x in requests if x["kind"] == "put" and x["octets"] == r["octets"] and x["rel"] != "over")
+                if n != want:
                     others = [len(o) for o in puts]
                     raise Violation("put-delivery", "snep", "server application saw the %d octet message %d times (all puts seen: %r); %r"
                                     % (len(r["octets"]), n, others, desc))
